@@ -199,9 +199,14 @@ class Alternation(object):
             return any(self._is_src(a) for a in e.args)
         if isinstance(e, ast.GeneratorExp):
             return self._is_src(e.generators[0].iter)
-        if isinstance(e, ast.Call) and unparse(e.func) in ("xzip", "zip", "iter", "enumerate", "xmap", "map") and e.args:
+        if isinstance(e, ast.Call) and unparse(e.func) in ("xzip", "zip", "iter", "enumerate", "xmap", "map", "it.islice",
+                                                           "islice", "it.chain", "chain", "it.takewhile", "it.dropwhile",
+                                                           "xfilter", "filter", "reversed") and e.args:
             return any(self._is_src(a) for a in e.args)
         return False
+
+    EAGER = ("list", "tuple", "deque", "collections.deque", "sum", "max", "min", "sorted", "set", "frozenset", "any", "all",
+             "dict", "OrderedDict", "len")
 
     def _v(self, what, node):
         self.viol.append((what, node))
@@ -235,6 +240,12 @@ class Alternation(object):
         out = []
         for n in ast.walk(e):
             if isinstance(n, ast.Call) and unparse(n.func) == "next" and n.args and self._is_src(n.args[0]):
+                out.append(n)
+            elif isinstance(n, ast.Call) and unparse(n.func) in self.EAGER and n.args and self._is_src(n.args[0]):
+                # list(src), deque(islice(src, n), maxlen=0), ...: consumes the source on the spot
+                out.append(n)
+            elif isinstance(n, ast.Call) and isinstance(n.func, ast.Attribute) and n.func.attr in ("extend", "update") \
+                    and n.args and self._is_src(n.args[0]):
                 out.append(n)
         return out
 
@@ -327,7 +338,8 @@ class Alternation(object):
                     alive = True
                     for pn in self._pulls_in(s):
                         if self.mode == "block":
-                            self._v("block stage pulls with next() instead of its for header", pn)
+                            self._v("block stage pulls from its source outside its for header (%s): items are read that "
+                                    "the block being produced does not need" % unparse(pn.func), pn)
                         if catch is not None:
                             catch.add(self.pull_fail(st, pn))
                         st = self.pull_ok(st, pn)
